@@ -38,10 +38,9 @@ nontrivial = bc.nontrivial_obs
 shrink = bc.shrink_hist
 
 KNOWN = {
-    "dead:two-types": "C05-srv-expiry-two-ptr-names",
-    "dead:case": "C05-D21-host-case",
     "alive:ptr-variant": "C05-ptr-variant-expiry",
     "dead:ptr-last-second": "C05-expiry-hidden-by-expiring-ptr",
+    "dead:two-names-addr": "C05-addr-expiry-two-ptr-names",
 }
 
 
